@@ -269,6 +269,15 @@ def suite_fonts(ctx, res, n):
         else:
             res.stat("build:ok:use-override")
             check_otsvg_font(ctx, res, case, out)
+    for _ in range(max(2, n // 12)):
+        case = fontgen.make_shared_bbox_gradient_case(ctx.rng.getrandbits(32), ctx.rng.choice(["picosvg", "picosvgz"]))
+        out = fontgen.build(case)
+        res.count(key=("font", case["id"]), nontrivial=True)
+        if "err" in out:
+            res.add_cex("valid sources failed to build: " + out["err"], {"case": case, "trace": out.get("trace")}, {"site": "otsvg-build", "case": case["id"]})
+        else:
+            res.stat("build:ok:shared-bbox-gradient")
+            check_otsvg_font(ctx, res, case, out)
     for _ in range(max(3, n // 10)):
         case = fontgen.make_nested_group_case(ctx.rng.getrandbits(32), ctx.rng.choice(["picosvg", "picosvgz"]))
         out = fontgen.build(case)
